@@ -55,6 +55,14 @@ TableDrift(ev) ==
   IF Len(ev.cells) # Len(ev.planes) THEN {}
   ELSE UNION {RowDrift(ev.cells[i], ev.planes[i]) : i \in 1..Len(ev.planes)}
 
+\* more rows than fit: the table shows the window that keeps the selection in view, starting as early as possible (its
+\* scroll offset is recomputed from nothing at every draw)
+WindowDiff(ev) ==
+  LET vis == ev.h - 9
+      k == IF ev.sel < vis THEN 0 ELSE ev.sel - vis + 1
+  IN IF Len(ev.cells) # vis \/ k + vis > Len(ev.planes) THEN {"row_window"}
+     ELSE UNION {RowDiff(ev.cells[i], ev.planes[k + i]) : i \in 1..vis}
+
 TableDiff(ev) ==
   IF Len(ev.cells) # Len(ev.planes) THEN {"row_count"}
   ELSE UNION {RowDiff(ev.cells[i], ev.planes[i]) : i \in 1..Len(ev.planes)}
@@ -108,6 +116,7 @@ ScreenDiff(ev) ==
      (IF ev.title_count = Len(ev.planes) THEN {} ELSE {"title_count"})
   \cup (IF ev.tab = 2 /\ ev.box_count # Len(ev.planes) THEN {"table_title_count"} ELSE {})
   \cup (IF ev.tab = 2 /\ ev.cells_valid = 1 THEN TableDiff(ev) ELSE {})
+  \cup (IF ev.tab = 2 /\ ev.cells_valid = 2 THEN WindowDiff(ev) ELSE {})
   \cup (IF ev.tab = 3 /\ ev.stats_valid = 1
         THEN (IF ev.stats_total = total THEN {} ELSE {"stats_total"}) \cup (IF ev.stats_most = most THEN {} ELSE {"stats_most"})
         ELSE {})
